@@ -20,7 +20,7 @@ RULE = ("for each gridder (Spline damped/undamped, Trend, VectorSpline2D, KNeigh
 ASSUMPTIONS = [
     "layout/dtype/extra-coordinate changes perform the same arithmetic: agreement within 1e-12 relative (NaN == NaN)",
     "permutations and linear combinations of least-squares gridders: 256*kappa*eps*scale with kappa from the harness-built scaled (augmented) Jacobian; skipped when kappa > 1e8",
-    "Cubic under permutation only with rescale=True or unit coordinate scale, tolerance 1e-2*max|d| (SciPy's iterative gradient estimate is order dependent, DESIGN.md 3.1)",
+    "Cubic under permutation only with rescale=True or unit, isotropic coordinate scale, tolerance 1e-2*max|d| (SciPy's iterative gradient estimate is order dependent, DESIGN.md 3.1)",
     "KNeighbors queries with distance ties are not compared under permutation",
     "query easting/northing have equal shapes (documented contract)",
 ]
@@ -251,7 +251,8 @@ def check_permutation(case, ctx):
 
         if not scipy_accepts(e, n, case["rescale"]):
             ctx.skip("scipy_cannot_triangulate")
-    if name == "cubic" and not (case["rescale"] or case["cloud"]["scale"] == 1.0):
+    if name == "cubic" and not (case["rescale"] or (case["cloud"]["scale"] == 1.0 and case["cloud"]["aspect"] == 1.0)):
+        # SciPy's iterative Clough-Tocher gradients depend on the point order (up to 16% on anisotropic clouds with tiny data, thorough tier)
         ctx.skip("cubic_order_sensitivity_of_scipy")
     kappa = kappa_of(case, e, n)
     if not kappa <= 1e8:
